@@ -1988,13 +1988,13 @@ def _stream_sequences(ctx, scale=1, full=False, stream_prefix="seq"):
                      if (t.split(":", 1)[0] in ("collide", "patch") and t.split(":", 1)[1].encode() in KEY_TARGETS)
                      or t == "modes" or t.startswith("rcpatch:") and ":headers:" in t or t.startswith("sparse:")
                      or (t.startswith("kinds:") and "gitlink" in t and t.endswith((":p:mixed", ":p:soft")))
-                     or (t.startswith("kinds:leading") and ctx.rng.random() < 0.4)
-                     or ctx.rng.random() < (0.06 if t.startswith("kinds:") else 0.34)]
+                     or (t.startswith("kinds:leading") and ctx.rng.random() < 0.25)
+                     or ctx.rng.random() < (0.04 if t.startswith("kinds:") else 0.2)]
         ctx.extra_cov["fixed_scenarios_run"] = len(fixed)
         for tag, case in fixed:
             run_scenario(ctx, w, stream_prefix + ".fixed", case, tag.split(":")[0], n)
             n += 1
-        for _ in range(ctx.budget(250) * scale):
+        for _ in range(ctx.budget(200) * scale):
             case = random_scenario(ctx.rng)
             run_scenario(ctx, w, stream_prefix + ".random", case, "+".join(s["op"] for s in case["steps"])[:60], n)
             n += 1
